@@ -31,6 +31,8 @@ def catalogue():
         "vectorise-fn": ("same", 0, lambda E, H, c, L, mk: E.vectorise(inc(E, c), L, ctx=c), "any", "same", "same"),
         "filter-every-3rd": ("filter", 3, lambda E, H, c, L, mk: E.vy_filter(L, lambda x: x % 3 == 0, c), "scalar-distinct", True, True),
         "zip": ("same", 0, lambda E, H, c, L, mk: E.vy_zip(L, mk(), c), "any", False, "same"),
+        "zip-finite": ("same", 0, lambda E, H, c, L, mk: E.vy_zip(L, [10, 20, 30], c), "any", False, "same"),
+        "add-finite-list": ("same", 0, lambda E, H, c, L, mk: E.add(L, [10, 20, 30], c), "scalar", True, False),
         "zip-self": ("same", 0, lambda E, H, c, L, mk: E.vy_zip(L, H.deep_copy(L), c), "any", False, "same"),
         "interleave": ("half", 0, lambda E, H, c, L, mk: E.interleave(L, mk(), c), "any", "same", False),
         "prefixes": ("same", 0, lambda E, H, c, L, mk: H.prefixes(L, c), "any", False, True),
@@ -116,6 +118,20 @@ def observe(case):
         return {"pipe": pipe, "names": names, "ev": [{"e": "hang", "j": 0, "pulled": count[0], "what": "construction"}]}
     except Exception as e:  # noqa: BLE001
         return {"pipe": pipe, "names": names, "ev": [{"e": "raise", "j": 0, "pulled": count[0], "what": "construction-" + type(e).__name__}]}
+    # "taking the first n items": the slice R[:k], materialised, for k = 0, 1, 5 (before any indexing)
+    for k in (0, 1, 5):
+        try:
+            got = common.with_alarm(lambda _: list(E.index(R, [0, k], ctx)), None, 5)
+            if len(got) != k:
+                ev.append({"e": "raise", "j": k, "pulled": count[0], "what": f"first-{k}-items-gave-{len(got)}"})
+                return {"pipe": pipe, "names": names, "ev": ev}
+            ev.append({"e": "out", "j": max(k - 1, 0), "pulled": count[0], "what": ""})
+        except common.CaseTimeout:
+            ev.append({"e": "hang", "j": k, "pulled": count[0], "what": "take"})
+            return {"pipe": pipe, "names": names, "ev": ev}
+        except Exception as e:  # noqa: BLE001
+            ev.append({"e": "raise", "j": k, "pulled": count[0], "what": "take-" + type(e).__name__})
+            return {"pipe": pipe, "names": names, "ev": ev}
     for j in range(n):
         try:
             common.with_alarm(lambda _: R[j], None, 5)
